@@ -274,7 +274,8 @@ def run(rep):
     rep.rule("R01.e", "normalised chain of _backward == inverse of the normalised chain of _forward, branch by branch")
     rep.rule("R01.f", "public forward/backward/jacobian only cast the result of the same-named internal method")
     rep.rule("R01.g", "transforms outside the chain vocabulary (LogSinh, Softmax): round-trip identities of the extracted formulas by computer algebra")
-    rep.assume("exact real arithmetic: floating-point accuracy of the round trip is not decided")
+    rep.rule("R01.h", "no avoidable overflow: an exp / sinh / cosh intermediate whose argument grows without bound is accepted only when the result overflows with it or the infinity propagates to the right limit")
+    rep.assume("exact real arithmetic: floating-point accuracy of the round trip is not decided (except the overflow clause R01.h)")
     mod, classes, table = extract(rep)
     rep.unit(f"{file}: {len(CATALOGUE)} transform classes x {len(METHODS)} methods")
     npn = numpy_names(rep)
@@ -400,6 +401,22 @@ def run(rep):
             else:
                 rep.check(ok, "R01.g", file, name, cons, det, line=line)
     rep.floor("computer-algebra round-trip clauses", nalg, 14)
+    # R01.h
+    nov = 0
+    for name in CATALOGUE:
+        tc = classes[name]
+        line = tc.methods["_forward"].lineno
+        try:
+            clauses = list(symx.overflow_clauses(tc.methods["_forward"], tc.methods["_backward"], pq))
+        except Undecided as ex:
+            rep.notes.append(f"R01.h: {name} not modelled ({str(ex)[:60]})")
+            continue
+        nov += 1
+        if not clauses:
+            rep.proved("R01.h", file, name, f"{name}: no exponential intermediate with an argument unbounded above on the domain", line=line)
+        for clause, ok, det in clauses:
+            rep.check(ok, "R01.h", file, name, f"{name}: {clause}", det, line=line)
+    rep.floor("classes modelled for overflow", nov, 5)
     # R01.f public wrappers
     base = mod.klass("Transform")
     for pub in ("forward", "backward", "jacobian"):
